@@ -24,6 +24,7 @@ def evaluate(diff, equiv, pid, wt):
     out = {"diff": diff, "property": pid}
     try:
         sh(["git", "checkout", "--", "."], cwd=wt)
+        sh(["git", "clean", "-fdq", "eqsig"], cwd=wt)
         env = dict(os.environ, PYTHONPATH=wt, PYTHONDONTWRITEBYTECODE="1")
         rc, o = sh(["git", "apply", diff], cwd=wt)
         if rc:
@@ -49,6 +50,7 @@ def evaluate(diff, equiv, pid, wt):
         return out
     finally:
         sh(["git", "checkout", "--", "."], cwd=wt)
+        sh(["git", "clean", "-fdq", "eqsig"], cwd=wt)           # files a change added
         sh("find . -name __pycache__ -prune -exec rm -rf {} +", cwd=wt)
 
 
